@@ -252,6 +252,19 @@ def run(ctx):
     table(ctx, 'PETE-SCENARIO', 'day-view==instant-view', [n for n in days if n not in jie_days], agree, lambda n: True,
           'day-level and instant-level views agree on days containing no Jie', lambda n: '%d-%02d-%02d' % CAL.from_jdn(n))
 
+    # 5b. the lunar new year may fall in DECEMBER (the library's own month numbering does so in its AD 9-23 window): the days after it still belong
+    # to the civil year's sexagenary year (they are after this year's Lichun and before the next one)
+    dec_months = synthetic_months(Y, CAL.jdn(Y, 1, 3), 2, leap={Y + 1: 6}, prev_months=3, auto_leap=False)
+
+    def dec_view(n):
+        cm = CalModel(I, terms_t, dec_months)
+        d = I.call('SixtyCycleDay::from_solar_day', [cm.solar_day_n(n)])
+        h = I.call('SixtyCycleHour::from_solar_time', [cm.solar_time_n(n, 45296)])
+        return ((t.name(t.m(d, 'get_year')), t.name(t.m(d, 'get_month'))), (t.name(t.m(h, 'get_year')), t.name(t.m(h, 'get_month'))))
+    dec_days = [n for n in range(CAL.jdn(Y, 12, 10), CAL.jdn(Y, 12, 31) + 1) if n not in jie_days]
+    table(ctx, 'PETE-SCENARIO', 'year-pillar:lunar-new-year-in-December', dec_days, dec_view, lambda n: (oracle_day(terms_t, Y, n), oracle_time(terms_t, Y, n, 45296)),
+          'with the lunar new year on December 22 the last days of the civil year keep the civil year\'s sexagenary year in both views', lambda n: '%d-%02d-%02d' % CAL.from_jdn(n), fn_site(p, 'SixtyCycleDay::from_solar_day'))
+
     # 6. the lunar-date twins of the pillar getters (kept for compatibility) must answer what the sexagenary views answer for the same day / instant
     def twins(x):
         n, sec = x
